@@ -384,6 +384,10 @@ def run_model(lines, timeout=1800):
 
 
 def run_impl(binary, lines, timeout=1800, env=None, extra_args=()):
+    if timeout == 1800:
+        # the default grows with the batch: a harness that handles thousands of cases per second on an idle machine is given
+        # at least 1 s per 150 cases, so that a loaded machine does not turn a big batch into a spurious "did not finish"
+        timeout = max(1800, len(lines) // 150)
     td = tmpdir()
     cf = os.path.join(td, "cases.txt")
     of = os.path.join(td, "out.txt")
